@@ -588,9 +588,9 @@ def main(tier, replay=None):
                 for pi in range(p ** dM):
                     P = ptrim([(pi // p ** j) % p for j in range(dM)])
                     for dk in range(0, dM):
-                        for v in ("poly.rr5", "poly.check"):
-                            args = [p, dk, 1, len(P)] + P + [len(M)] + M
-                            pcases.append((v, v, args, args, None, "exhaustive", "p=%d" % p, (p, dk, 1, P, M)))
+                        for v, fr in (("poly.rr5", 1), ("poly.check", 0), ("poly.rr6", 0), ("poly.rr6", 1)):
+                            args = [p, dk, fr, len(P)] + P + [len(M)] + M
+                            pcases.append((v, v, args, args, None, "exhaustive", "p=%d" % p, (p, dk, fr, P, M)))
     allc = [(v, op, ia, ma, frac, fc, mc, None) for (v, op, ia, ma, frac, fc, mc) in cases] + pcases
     if replay:
         allc = cases_from_replay(replay)
